@@ -60,6 +60,7 @@ def run_history(case, keep_obs):
                 elif k == 'sub':
                     sub = b.build(cmd[2], cmd[1], top=False)
                     entries.append(c.add(sub))
+                    b.flush_reps()          # registry-provided counts are written after the sub-circuit was nested
                 elif k == 'grow':
                     op = b.make_leaf(cmd[2], None, c)
                     entries[cmd[1]].add(op)
